@@ -156,7 +156,8 @@ def precondition(ev, st, ctx, what, cond):
     ev.asserts.append(AssertRec(body=key, bb=-1, kind="pre:" + what, span=ctx.span, cond=cond, expected=True,
                                 ops=[], chain=tuple(ev.chain), discharged=okd, how=how))
     if cond.op != "const":
-        st.assume = st.assume + (cond,)
+        from .evalmir import add_assume
+        add_assume(st, cond)
 
 
 # ---------------------------------------------------------- range reasoning
@@ -172,6 +173,11 @@ def arange(ev, st, t, depth=0):
         if x.op == "aff" and x.w == 1 and (x.aux[0] & 1) and len(x.args) == 1 and x.aux[1] == (1,):
             neg = True
             x = x.args[0]
+        if x.op == "eqz" and x.args[0] is t:
+            if neg:
+                lo = max(lo, 1)
+            else:
+                lo, hi = 0, 0
         if x.op == "ult":
             p, q = x.args
             if p is t and q.op == "const":
@@ -184,7 +190,19 @@ def arange(ev, st, t, depth=0):
                     lo = max(lo, p.aux + 1)
                 else:
                     hi = min(hi, p.aux)
+    if depth == 0 and st.assume and lo == 0 and t.op in ("aff", "sym", "rng", "res", "select"):
+        z = T.eqz(t)
+        if z.op != "const":
+            if T.bnot(z) in st.assume:
+                lo = max(lo, 1)
+            elif z in st.assume:
+                hi = 0
     if depth < 6:
+        if t.op == "uabs":
+            a, b = srange_of(ev, st, t.args[0])
+            m = max(abs(a), abs(b))
+            l0 = 0 if a <= 0 <= b else min(abs(a), abs(b))
+            lo, hi = max(lo, l0), min(hi, m)
         if t.op == "ring":
             # c0 + sum ci * atom  with refined atom ranges, if no wrap
             l2 = h2 = 0
@@ -256,9 +274,20 @@ def arange(ev, st, t, depth=0):
             wx = t.args[0].w
             lo, hi = max(lo, wx - a[1].bit_length()), min(hi, wx - a[0].bit_length())
         elif t.op == "ite":
-            a = arange(ev, st, t.args[1], depth + 1)
-            b = arange(ev, st, t.args[2], depth + 1)
+            c = t.args[0]
+            sa = st.fork()
+            sa.assume = st.assume + (c,)
+            sb = st.fork()
+            sb.assume = st.assume + (T.bnot(c),)
+            a = arange(ev, sa, t.args[1], depth + 1)
+            b = arange(ev, sb, t.args[2], depth + 1)
             lo, hi = max(lo, min(a[0], b[0])), min(hi, max(a[1], b[1]))
+        elif t.op == "select" and t.args[0].op == "arrlit":
+            ia, ib = arange(ev, st, t.args[1], depth + 1)
+            elems = t.args[0].args
+            if ib < len(elems) and all(e.op == "const" for e in elems[ia:ib + 1]):
+                vals = [e.aux for e in elems[ia:ib + 1]]
+                lo, hi = max(lo, min(vals)), min(hi, max(vals))
     return lo, hi
 
 
@@ -266,6 +295,29 @@ def srange_of(ev, st, t):
     """signed interval [lo, hi] of a w-bit term"""
     w = t.w
     half = 1 << (w - 1)
+    if t.op == "aff":
+        for k in (8, 16, 32):
+            if k < w:
+                u = T.trunc(t, k)
+                if u is not t and T.sext(u, w) is t:
+                    return srange_of(ev, st, u)  # sign extension keeps the signed value
+    if t.op == "ring":
+        lo = hi = 0
+        okk = True
+        for mono, co in t.aux:
+            sc = co - (1 << w) if co >= half else co
+            if mono == ():
+                lo += sc
+                hi += sc
+            elif len(mono) == 1:
+                a, b = srange_of(ev, st, T._ATOM[mono[0]]) if T._ATOM[mono[0]].w == w else arange(ev, st, T._ATOM[mono[0]])
+                lo += min(sc * a, sc * b)
+                hi += max(sc * a, sc * b)
+            else:
+                okk = False
+                break
+        if okk and lo >= -half and hi < half:
+            return lo, hi
     ulo, uhi = arange(ev, st, t)
     if uhi < half:
         return ulo, uhi
@@ -468,6 +520,10 @@ def opaque_call(ev, st, ctx, why):
         value_sig(ev, st, a, sig)
         argsigs.append(tuple(sig[n0:]))
     unresolved = callee.get("res") is None and callee.get("why") == "unresolved"
+    kr = callee.get("rkrate") or callee.get("krate")
+    if callee.get("res") is None and kr not in (None, "core", "alloc", "rand_core", "rand_xoshiro", "rand_xorshift", "rand_hc",
+                                                 "rand_isaac", "rand_jitter", "serde", "serde_core"):
+        unresolved = True  # code outside core (std, log, ...) may consult the environment: thread the world token
     if unresolved:
         sig.append(st.world)
     call = T.atom("call", 1, tuple(sig), name)
@@ -614,6 +670,12 @@ def p_from_le_bytes(ev, st, ctx):
 def p_from_uint(ev, st, ctx):
     w = ev.scalar_width(ctx.dest_ty)
     return T.zext(ctx.args[0], w)
+
+
+@prim("re:core::convert::num::<impl core::convert::From<i(8|16|32|64)> for i(16|32|64|128|size)>::from")
+def p_from_sint(ev, st, ctx):
+    w = ev.scalar_width(ctx.dest_ty)
+    return T.sext(ctx.args[0], w)
 
 
 @prim("re:<&u(8|16|32|64|size) as core::ops::BitAnd<u(8|16|32|64|size)>>::bitand")
@@ -1193,6 +1255,42 @@ def p_size_of(ev, st, ctx):
     if w is None:
         raise Unsupported("size_of %s" % ev.tys[t]["s"])
     return T.const(max(1, w // 8), 64)
+
+
+# ================================================================ calls through Fn traits on function items / closures
+
+@prim("core::ops::Fn::call", "core::ops::FnMut::call_mut", "core::ops::FnOnce::call_once")
+def p_fn_call(ev, st, ctx):
+    f = ctx.args[0]
+    if isinstance(f, Ref):
+        try:
+            f = ev.load(st, f)
+        except Unsupported:
+            f = None
+    tup = ctx.args[1] if len(ctx.args) > 1 else UNIT
+    actual = list(tup.fields) if isinstance(tup, Struct) else [tup]
+    if isinstance(f, FnV):
+        c2 = CallCtx(f.callee, actual, [None] * len(actual), ctx.dest_ty, ctx.span, ctx.fr)
+        return ev.invoke(st, c2)
+    if isinstance(f, ClosureV):
+        return call_closure(ev, st, f, actual, ctx.fr.depth if ctx.fr else 0)
+    return opaque_call(ev, st, ctx, ctx.callee.get("why", "unresolved"))
+
+
+# ================================================================ atomics (only JitterRng::new's cache of the round count)
+
+@prim("re:core::sync::atomic::Atomic(Usize|U64|U32|Bool|::<.*>)::load")
+def p_atomic_load(ev, st, ctx):
+    ev.opaque_counter += 1
+    w = ev.scalar_width(ctx.dest_ty) or 64
+    ev.static_reads.append((ctx.fr.body["key"], ctx.span))
+    return T.sym("static_read#%d" % ev.opaque_counter, w)
+
+
+@prim("re:core::sync::atomic::Atomic(Usize|U64|U32|Bool|::<.*>)::store")
+def p_atomic_store(ev, st, ctx):
+    ev.static_reads.append((ctx.fr.body["key"], ctx.span))
+    return UNIT
 
 
 # ================================================================ panics
